@@ -52,7 +52,8 @@ ENTRY int verif_pbf_nodes_roundtrip(const long* fields, unsigned n, int dense, u
 // ---------------------------------------------------------------- PBF: plain node / way / relation through PBFOutputFormat::node / way / relation
 // kind 0 plain node {id, version, changeset, uid, x, y}; 1 way {id, version, ref0, ref1, ref2, x (of ref0 if locations are written)};
 // 2 relation {id, version, mref0 (node), mref1 (way), mref2 (relation), mref3 (node)}.  User "usr", one tag, roles "a" / "" / "a" / "b".
-// out1 = dump of the object as built, out2 = dump of what the reader made of the written block.  low = locations_on_ways
+// out1 = dump of the object as built, out2 = dump of what the reader made of the written block.  low: 0 = no locations on ways, else the option is on
+// and bits 0..2 say which of the three references have a location (an undefined location is a legal value)
 ENTRY int verif_pbf_object_roundtrip(int kind, const long* f, int low, unsigned char* out1, unsigned* len1, unsigned char* out2, unsigned* len2, unsigned cap) {
     try {
         memory::Buffer in{1024};
@@ -63,7 +64,7 @@ ENTRY int verif_pbf_object_roundtrip(int kind, const long* f, int low, unsigned 
         } else if (kind == 1) {
             { builder::WayBuilder b{in}; b.set_id(f[0]).set_version(static_cast<object_version_type>(f[1])).set_timestamp(Timestamp{uint32_t(1000000000)}).set_changeset(7).set_uid(8); b.set_user("usr");
               { builder::WayNodeListBuilder wn{b};
-                wn.add_node_ref(NodeRef{f[2], low ? Location{static_cast<int32_t>(f[5]), 11} : Location{}}); wn.add_node_ref(NodeRef{f[3], low ? Location{-5, 12} : Location{}}); wn.add_node_ref(NodeRef{f[4], low ? Location{7, -13} : Location{}}); }
+                wn.add_node_ref(NodeRef{f[2], (low & 1) ? Location{static_cast<int32_t>(f[5]), 11} : Location{}}); wn.add_node_ref(NodeRef{f[3], (low & 2) ? Location{-5, 12} : Location{}}); wn.add_node_ref(NodeRef{f[4], (low & 4) ? Location{7, -13} : Location{}}); }
               { builder::TagListBuilder t{b}; t.add_tag("k", "v"); } }
         } else {
             { builder::RelationBuilder b{in}; b.set_id(f[0]).set_version(static_cast<object_version_type>(f[1])).set_timestamp(Timestamp{uint32_t(1000000000)}).set_changeset(7).set_uid(8); b.set_user("usr");
